@@ -10,7 +10,7 @@ class DimensionError(Exception):
     ...
 
 def admittance_connected_to(network: Network, node: str) -> complex:
-    return sum(b.element.Y for b in network.branches_connected_to(node) if np.isfinite(b.element.Y))
+    return sum(b.element.Y for b in network.branches_connected_to(node) if np.isfinite(b.element.Y) and b.node1 != b.node2) # an element with both terminals on one node connects it to nothing
 
 def admittance_between(network: Network, node1: str, node2: str) -> complex:
     return sum([b.element.Y for b in network.branches_between(node1, node2) if np.isfinite(b.element.Y)])
@@ -56,6 +56,8 @@ def source_incidence_matrix(network: Network, node_mapper: map.NetworkMapper = m
     Q = np.zeros((node_index.N, cs_index.N))
     for cs in cs_index.keys:
         source_element = network[cs]
+        if source_element.node1 == source_element.node2: # the source current leaves and enters the same node
+            continue
         if network.node_zero_label != source_element.node1:
             Q[node_index[source_element.node1]][cs_index[cs]] = -1
         if network.node_zero_label != network[cs].node2:
